@@ -74,7 +74,9 @@ RECURSIVE SetToSeq(_)
 SetToSeq(S) == IF S = {} THEN <<>> ELSE LET x == CHOOSE x \in S : TRUE IN <<x>> \o SetToSeq(S \ {x})
 SE == INSTANCE SequencesExt
 IfaceSeq == SE!SetToSeq({[doc |-> d, params |-> ps, ret |-> r] : d \in IDocs, ps \in ParamSeqs, r \in Rets})
-Init == /\ i \in {IfaceSeq[k] : k \in {j \in 1..Len(IfaceSeq) : j % NShards = Shard}}
+\* (the sequence is handed over as an ARGUMENT: TLC evaluates an argument once, a definition indexed inside a set constructor every time)
+ShardOf(seq) == {seq[k] : k \in {j \in 1..Len(seq) : j % NShards = Shard}}
+Init == /\ i \in ShardOf(IfaceSeq)
         /\ pc = "emit" /\ schema = "none" /\ back = "none"
 DoEmit == pc = "emit" /\ schema' = Emit(i) /\ pc' = "parse" /\ UNCHANGED <<i, back>>
 DoParse == pc = "parse" /\ back' = Parse(schema, i) /\ pc' = "done" /\ UNCHANGED <<i, schema>>
